@@ -125,7 +125,11 @@ def real_lex(text):
         return ("ok", [(type(t).__name__, t.start, t.end, t.value) for t in Lexer(text)])
     except GraphQLSyntaxError as e:
         problem = None
+        if str(getattr(e, "message", "") or "") == "":
+            problem = "message-empty"       # "can always be rendered as a message": an empty message is not one
         for what, fn in (("str", lambda: str(e)), ("highlighted", lambda: e.highlighted), ("to_dict", lambda: e.to_dict())):
+            if problem:
+                break
             try:
                 r = fn()
                 if what == "to_dict" and not (isinstance(r, dict) and isinstance(r.get("message"), str) and r.get("locations")):
@@ -1082,7 +1086,11 @@ def real_parse_contract(text, entry="document"):
         return ("ok",)
     except GraphQLSyntaxError as e:
         problem = None
+        if str(getattr(e, "message", "") or "") == "":
+            problem = "message-empty"
         for what, f in (("str", lambda: str(e)), ("highlighted", lambda: e.highlighted), ("to_dict", lambda: e.to_dict())):
+            if problem:
+                break
             try:
                 f()
             except Exception as x:  # noqa
